@@ -50,6 +50,12 @@ func VerifCSSTables(n int) {
 				ok = true
 			}
 		}
+		// angles: the table also serves function arguments (rotate(0deg) -> rotate(0)); as property values they keep the unit (VerifCSSZeroAngle)
+		for _, u := range []string{"deg", "grad", "rad", "turn"} {
+			if u == k {
+				ok = true
+			}
+		}
 		// units added to CSS Values after the list in values.go was written from level 3: accept the level-4 lengths too
 		for _, u := range []string{"vi", "vb", "lh", "rlh", "cap", "ic", "rex", "rch", "ric", "rcap", "svw", "svh", "lvw", "lvh", "dvw", "dvh", "cqw", "cqh", "cqi", "cqb", "cqmin", "cqmax"} {
 			if u == k {
